@@ -62,6 +62,10 @@ for sid in sorted(os.listdir(SEEDED)):
         if meta.get("expect") == "neutralised":
             # the weakness this change exploited has been repaired in /repo: it must no longer break the property
             row["verdict"] = "neutralised-ok" if (main["exit"] == 0 and d_mut == 0) else "UNEXPECTED"
+        elif meta.get("expect") == "out-of-reach":
+            # documented in DESIGN 12.6: the trigger cannot occur on this code path under a faithful fault model
+            row["verdict"] = "out-of-reach (as documented)" if main["exit"] == 0 else \
+                ("caught" if (main["exit"] == 1 and main["replays_reproduce"]) else "UNEXPECTED")
         else:
             row["verdict"] = "caught" if (main["exit"] == 1 and main["replays_reproduce"]) else "MISSED"
         results = [r for r in results if r["id"] != sid] + [row]
